@@ -363,6 +363,10 @@ def trajectory_rules(ctx, rule='R4'):
     pe = m.func(TRJ, 'CompressedSegment._pack_element')
     pks = [c for c in walk_own(pe.node) if isinstance(c, ast.Call) and dotted(c.func) == 'struct.pack']
     lp = [l for l in walk_own(pe.node) if isinstance(l, ast.For)]
+    gens_ = [x for x in ast.walk(pe.node) if isinstance(x, (ast.GeneratorExp, ast.ListComp)) and len(x.generators) == 1 and not x.generators[0].ifs]
+    if len(pks) == 1 and not lp and len(gens_) == 1 and any(pks[0] is y for y in ast.walk(gens_[0].elt)):
+        # b''.join(struct.pack('<h', part) for part in element): the same parts, in order, each packed <h
+        lp = [ast.For(target=gens_[0].generators[0].target, iter=gens_[0].generators[0].iter, body=[], orelse=[])]
     ctx.inst(rule, pe, 'element-int16', len(pks) == 1 and len(lp) == 1 and [norm_nc(a) for a in pks[0].args] == ["'<h'", norm(lp[0].target)] and norm(lp[0].iter) == pe.params[-1],
              'each part is packed <h in order, unmasked')
     et = m.func(TRJ, 'CompressedSegment._encode_type')
@@ -502,6 +506,11 @@ def quaternion_rules(ctx, rule='R3'):
     else:
         am = [s_ for s_ in cq.node.body if isinstance(s_, ast.Assign) and norm(s_.targets[0]) == 'i_largest']
         oks = len(am) == 1 and norm(am[0].value).replace(' ', '') in ('int(np.argmax(np.abs(quat_n)))', 'np.argmax(np.abs(quat_n))', 'int(np.argmax(abs(quat_n)))')
+        if len(am) == 1 and isinstance(am[0].value, ast.Call) and norm(am[0].value.func) == 'max' and len(am[0].value.args) == 1:
+            # max(range(4), key=lambda i: abs(quat_n[i])): the first index of largest magnitude (ties keep the first, like the loop with `>`)
+            kf = next((k_.value for k_ in am[0].value.keywords if k_.arg == 'key'), None)
+            oks = fold_in(cq, am[0].value.args[0]) == (0, 1, 2, 3) and isinstance(kf, ast.Lambda) and len(kf.args.args) == 1 and \
+                norm(kf.body) == 'abs(quat_n[%s])' % kf.args.args[0].arg
     ctx.inst(rule, cq, 'largest-by-magnitude', oks, 'the dropped component must be the one of largest MAGNITUDE (abs); otherwise a kept component can exceed 1/sqrt2 and overflow its 9 bits')
     wa = [s for s in walk_own(wl[0]) if isinstance(s, ast.Assign) and norm(s.targets[0]) == 'comp']
     wb = B_.evaluate(wa[0].value, Scope.of(cq), {'comp': 'comp', 'negbit': 'neg', 'mag': 'mag'}, {'comp': 32, 'neg': 1, 'mag': 9})
